@@ -463,19 +463,30 @@ impl<S: ToyScalar, const R: usize> Elem for Lin<S, R> {
 
 // ---------------------------------------------------------------------------------------------
 // the CurveAffine / CurveExt pair over an `Elem`
+// (the scalar field is a second type parameter, always `S`, only so that `Mul<S>` and `Mul<&S>` are coherent)
 #[derive(Clone, Copy, Debug, Default, PartialEq, Eq)]
-pub struct GA<E: Elem>(pub E);
+pub struct GA<E: Elem, S = <E as Elem>::Scalar>(pub E, pub PhantomData<S>);
 #[derive(Clone, Copy, Debug, Default, PartialEq, Eq)]
-pub struct GJ<E: Elem>(pub E);
+pub struct GJ<E: Elem, S = <E as Elem>::Scalar>(pub E, pub PhantomData<S>);
+impl<S: ToyScalar, E: Elem<Scalar = S>> GA<E, S> {
+    pub fn new(e: E) -> Self {
+        GA(e, PhantomData)
+    }
+}
+impl<S: ToyScalar, E: Elem<Scalar = S>> GJ<E, S> {
+    pub fn new(e: E) -> Self {
+        GJ(e, PhantomData)
+    }
+}
 
 macro_rules! ct_impls {
     ($T:ident) => {
-        impl<E: Elem> ConstantTimeEq for $T<E> {
+        impl<S: ToyScalar, E: Elem<Scalar = S>> ConstantTimeEq for $T<E, S> {
             fn ct_eq(&self, o: &Self) -> Choice {
                 Choice::from(self.0.same(&o.0) as u8)
             }
         }
-        impl<E: Elem> ConditionallySelectable for $T<E> {
+        impl<S: ToyScalar, E: Elem<Scalar = S>> ConditionallySelectable for $T<E, S> {
             fn conditional_select(a: &Self, b: &Self, c: Choice) -> Self {
                 if c.unwrap_u8() == 1 {
                     *b
@@ -484,25 +495,25 @@ macro_rules! ct_impls {
                 }
             }
         }
-        impl<E: Elem> Neg for $T<E> {
-            type Output = $T<E>;
-            fn neg(self) -> $T<E> {
-                $T(self.0.gneg())
+        impl<S: ToyScalar, E: Elem<Scalar = S>> Neg for $T<E, S> {
+            type Output = $T<E, S>;
+            fn neg(self) -> $T<E, S> {
+                $T::new(self.0.gneg())
             }
         }
-        impl<E: Elem> Mul<E::Scalar> for $T<E> {
-            type Output = GJ<E>;
-            fn mul(self, k: E::Scalar) -> GJ<E> {
-                GJ(env_mul(self.0, &k))
+        impl<S: ToyScalar, E: Elem<Scalar = S>> Mul<S> for $T<E, S> {
+            type Output = GJ<E, S>;
+            fn mul(self, k: S) -> GJ<E, S> {
+                GJ::new(env_mul(self.0, &k))
             }
         }
-        impl<'a, E: Elem> Mul<&'a E::Scalar> for $T<E> {
-            type Output = GJ<E>;
-            fn mul(self, k: &'a E::Scalar) -> GJ<E> {
-                GJ(env_mul(self.0, k))
+        impl<'a, S: ToyScalar, E: Elem<Scalar = S>> Mul<&'a S> for $T<E, S> {
+            type Output = GJ<E, S>;
+            fn mul(self, k: &'a S) -> GJ<E, S> {
+                GJ::new(env_mul(self.0, k))
             }
         }
-        impl<E: Elem> GroupEncoding for $T<E> {
+        impl<S: ToyScalar, E: Elem<Scalar = S>> GroupEncoding for $T<E, S> {
             type Repr = [u8; 2];
             fn from_bytes(_b: &[u8; 2]) -> CtOption<Self> {
                 unimplemented!()
@@ -519,71 +530,71 @@ macro_rules! ct_impls {
 ct_impls!(GA);
 ct_impls!(GJ);
 
-impl<E: Elem> From<GJ<E>> for GA<E> {
-    fn from(j: GJ<E>) -> GA<E> {
-        GA(j.0)
+impl<S: ToyScalar, E: Elem<Scalar = S>> From<GJ<E, S>> for GA<E, S> {
+    fn from(j: GJ<E, S>) -> GA<E, S> {
+        GA::new(j.0)
     }
 }
-impl<E: Elem> From<GA<E>> for GJ<E> {
-    fn from(a: GA<E>) -> GJ<E> {
-        GJ(a.0)
+impl<S: ToyScalar, E: Elem<Scalar = S>> From<GA<E, S>> for GJ<E, S> {
+    fn from(a: GA<E, S>) -> GJ<E, S> {
+        GJ::new(a.0)
     }
 }
-impl<E: Elem> Add for GA<E> {
-    type Output = GJ<E>;
-    fn add(self, o: GA<E>) -> GJ<E> {
-        GJ(self.0.gadd(o.0))
+impl<S: ToyScalar, E: Elem<Scalar = S>> Add for GA<E, S> {
+    type Output = GJ<E, S>;
+    fn add(self, o: GA<E, S>) -> GJ<E, S> {
+        GJ::new(self.0.gadd(o.0))
     }
 }
-impl<E: Elem> Sub for GA<E> {
-    type Output = GJ<E>;
-    fn sub(self, o: GA<E>) -> GJ<E> {
-        GJ(self.0.gadd(o.0.gneg()))
+impl<S: ToyScalar, E: Elem<Scalar = S>> Sub for GA<E, S> {
+    type Output = GJ<E, S>;
+    fn sub(self, o: GA<E, S>) -> GJ<E, S> {
+        GJ::new(self.0.gadd(o.0.gneg()))
     }
 }
 macro_rules! j_ops {
     ($R:ident) => {
-        impl<E: Elem> Add<$R<E>> for GJ<E> {
-            type Output = GJ<E>;
-            fn add(self, o: $R<E>) -> GJ<E> {
-                GJ(self.0.gadd(o.0))
+        impl<S: ToyScalar, E: Elem<Scalar = S>> Add<$R<E, S>> for GJ<E, S> {
+            type Output = GJ<E, S>;
+            fn add(self, o: $R<E, S>) -> GJ<E, S> {
+                GJ::new(self.0.gadd(o.0))
             }
         }
-        impl<'a, E: Elem> Add<&'a $R<E>> for GJ<E> {
-            type Output = GJ<E>;
-            fn add(self, o: &'a $R<E>) -> GJ<E> {
-                GJ(self.0.gadd(o.0))
+        impl<'a, S: ToyScalar, E: Elem<Scalar = S>> Add<&'a $R<E, S>> for GJ<E, S> {
+            type Output = GJ<E, S>;
+            fn add(self, o: &'a $R<E, S>) -> GJ<E, S> {
+                GJ::new(self.0.gadd(o.0))
             }
         }
-        impl<E: Elem> Sub<$R<E>> for GJ<E> {
-            type Output = GJ<E>;
-            fn sub(self, o: $R<E>) -> GJ<E> {
-                GJ(self.0.gadd(o.0.gneg()))
+        impl<S: ToyScalar, E: Elem<Scalar = S>> Sub<$R<E, S>> for GJ<E, S> {
+            type Output = GJ<E, S>;
+            fn sub(self, o: $R<E, S>) -> GJ<E, S> {
+                GJ::new(self.0.gadd(o.0.gneg()))
             }
         }
-        impl<'a, E: Elem> Sub<&'a $R<E>> for GJ<E> {
-            type Output = GJ<E>;
-            fn sub(self, o: &'a $R<E>) -> GJ<E> {
-                GJ(self.0.gadd(o.0.gneg()))
+        impl<'a, S: ToyScalar, E: Elem<Scalar = S>> Sub<&'a $R<E, S>> for GJ<E, S> {
+            type Output = GJ<E, S>;
+            fn sub(self, o: &'a $R<E, S>) -> GJ<E, S> {
+                GJ::new(self.0.gadd(o.0.gneg()))
             }
         }
-        impl<E: Elem> AddAssign<$R<E>> for GJ<E> {
-            fn add_assign(&mut self, o: $R<E>) {
+        impl<S: ToyScalar, E: Elem<Scalar = S>> AddAssign<$R<E, S>> for GJ<E, S> {
+            fn add_assign(&mut self, o: $R<E, S>) {
                 self.0 = self.0.gadd(o.0)
             }
         }
-        impl<'a, E: Elem> AddAssign<&'a $R<E>> for GJ<E> {
-            fn add_assign(&mut self, o: &'a $R<E>) {
+        impl<'a, S: ToyScalar, E: Elem<Scalar = S>> AddAssign<&'a $R<E, S>> for GJ<E, S> {
+            fn add_assign(&mut self, o: &'a $R<E, S>) {
                 self.0 = self.0.gadd(o.0)
             }
         }
-        impl<E: Elem> SubAssign<$R<E>> for GJ<E> {
-            fn sub_assign(&mut self, o: $R<E>) {
+        impl<S: ToyScalar, E: Elem<Scalar = S>> SubAssign<$R<E, S>> for GJ<E, S> {
+            fn sub_assign(&mut self, o: $R<E, S>) {
                 self.0 = self.0.gadd(o.0.gneg())
             }
         }
-        impl<'a, E: Elem> SubAssign<&'a $R<E>> for GJ<E> {
-            fn sub_assign(&mut self, o: &'a $R<E>) {
+        impl<'a, S: ToyScalar, E: Elem<Scalar = S>> SubAssign<&'a $R<E, S>> for GJ<E, S> {
+            fn sub_assign(&mut self, o: &'a $R<E, S>) {
                 self.0 = self.0.gadd(o.0.gneg())
             }
         }
@@ -591,33 +602,33 @@ macro_rules! j_ops {
 }
 j_ops!(GJ);
 j_ops!(GA);
-impl<E: Elem> MulAssign<E::Scalar> for GJ<E> {
-    fn mul_assign(&mut self, k: E::Scalar) {
+impl<S: ToyScalar, E: Elem<Scalar = S>> MulAssign<S> for GJ<E, S> {
+    fn mul_assign(&mut self, k: S) {
         self.0 = env_mul(self.0, &k)
     }
 }
-impl<'a, E: Elem> MulAssign<&'a E::Scalar> for GJ<E> {
-    fn mul_assign(&mut self, k: &'a E::Scalar) {
+impl<'a, S: ToyScalar, E: Elem<Scalar = S>> MulAssign<&'a S> for GJ<E, S> {
+    fn mul_assign(&mut self, k: &'a S) {
         self.0 = env_mul(self.0, k)
     }
 }
-impl<E: Elem> Sum for GJ<E> {
-    fn sum<I: Iterator<Item = GJ<E>>>(i: I) -> GJ<E> {
-        i.fold(GJ(E::id()), |a, b| a + b)
+impl<S: ToyScalar, E: Elem<Scalar = S>> Sum for GJ<E, S> {
+    fn sum<I: Iterator<Item = GJ<E, S>>>(i: I) -> GJ<E, S> {
+        i.fold(GJ::new(E::id()), |a, b| a + b)
     }
 }
-impl<'a, E: Elem> Sum<&'a GJ<E>> for GJ<E> {
-    fn sum<I: Iterator<Item = &'a GJ<E>>>(i: I) -> GJ<E> {
-        i.fold(GJ(E::id()), |a, b| a + b)
+impl<'a, S: ToyScalar, E: Elem<Scalar = S>> Sum<&'a GJ<E, S>> for GJ<E, S> {
+    fn sum<I: Iterator<Item = &'a GJ<E, S>>>(i: I) -> GJ<E, S> {
+        i.fold(GJ::new(E::id()), |a, b| a + b)
     }
 }
-impl<E: Elem> Group for GJ<E> {
-    type Scalar = E::Scalar;
+impl<S: ToyScalar, E: Elem<Scalar = S>> Group for GJ<E, S> {
+    type Scalar = S;
     fn random(_rng: impl RngCore) -> Self {
         unimplemented!()
     }
     fn identity() -> Self {
-        GJ(E::id())
+        GJ::new(E::id())
     }
     fn generator() -> Self {
         unimplemented!()
@@ -626,24 +637,24 @@ impl<E: Elem> Group for GJ<E> {
         Choice::from(self.0.is_id() as u8)
     }
     fn double(&self) -> Self {
-        GJ(self.0.gdbl())
+        GJ::new(self.0.gdbl())
     }
 }
-impl<E: Elem> PrimeGroup for GJ<E> {}
-impl<E: Elem> Curve for GJ<E> {
-    type AffineRepr = GA<E>;
-    fn to_affine(&self) -> GA<E> {
-        GA(self.0)
+impl<S: ToyScalar, E: Elem<Scalar = S>> PrimeGroup for GJ<E, S> {}
+impl<S: ToyScalar, E: Elem<Scalar = S>> Curve for GJ<E, S> {
+    type AffineRepr = GA<E, S>;
+    fn to_affine(&self) -> GA<E, S> {
+        GA::new(self.0)
     }
 }
-impl<E: Elem> PrimeCurve for GJ<E> {
-    type Affine = GA<E>;
+impl<S: ToyScalar, E: Elem<Scalar = S>> PrimeCurve for GJ<E, S> {
+    type Affine = GA<E, S>;
 }
-impl<E: Elem> PrimeCurveAffine for GA<E> {
-    type Scalar = E::Scalar;
-    type Curve = GJ<E>;
+impl<S: ToyScalar, E: Elem<Scalar = S>> PrimeCurveAffine for GA<E, S> {
+    type Scalar = S;
+    type Curve = GJ<E, S>;
     fn identity() -> Self {
-        GA(E::id())
+        GA::new(E::id())
     }
     fn generator() -> Self {
         unimplemented!()
@@ -651,14 +662,14 @@ impl<E: Elem> PrimeCurveAffine for GA<E> {
     fn is_identity(&self) -> Choice {
         Choice::from(self.0.is_id() as u8)
     }
-    fn to_curve(&self) -> GJ<E> {
-        GJ(self.0)
+    fn to_curve(&self) -> GJ<E, S> {
+        GJ::new(self.0)
     }
 }
-impl<E: Elem> CurveExt for GJ<E> {
-    type ScalarExt = E::Scalar;
+impl<S: ToyScalar, E: Elem<Scalar = S>> CurveExt for GJ<E, S> {
+    type ScalarExt = S;
     type Base = E::Base;
-    type AffineExt = GA<E>;
+    type AffineExt = GA<E, S>;
     const CURVE_ID: &'static str = "toy-msm";
     fn endo(&self) -> Self {
         unimplemented!()
@@ -682,10 +693,10 @@ impl<E: Elem> CurveExt for GJ<E> {
         unimplemented!()
     }
 }
-impl<E: Elem> CurveAffine for GA<E> {
-    type ScalarExt = E::Scalar;
+impl<S: ToyScalar, E: Elem<Scalar = S>> CurveAffine for GA<E, S> {
+    type ScalarExt = S;
     type Base = E::Base;
-    type CurveExt = GJ<E>;
+    type CurveExt = GJ<E, S>;
     fn coordinates(&self) -> CtOption<Coordinates<Self>> {
         match self.0.xy() {
             Some((x, y)) => Coordinates::from_xy(x, y),
@@ -694,8 +705,8 @@ impl<E: Elem> CurveAffine for GA<E> {
     }
     fn from_xy(x: E::Base, y: E::Base) -> CtOption<Self> {
         match E::on_curve(x, y) {
-            Some(e) => CtOption::new(GA(e), Choice::from(1)),
-            None => CtOption::new(GA(E::id()), Choice::from(0)),
+            Some(e) => CtOption::new(GA::new(e), Choice::from(1)),
+            None => CtOption::new(GA::new(E::id()), Choice::from(0)),
         }
     }
     fn is_on_curve(&self) -> Choice {
